@@ -216,7 +216,7 @@ func c01Matrix() []c01cell {
 	// A. parameters: location x primitive x {scalar, array} x required x nullable x {inline, schema $ref, parameter $ref} x level
 	for _, in := range []string{"query", "header", "path"} {
 		for _, pk := range c01Prims {
-			for _, shape := range []string{"scalar", "array", "array-null-items"} {
+			for _, shape := range []string{"scalar", "array", "array-null-items", "array-of-arrays"} {
 				if shape != "scalar" && in == "path" {
 					continue
 				}
@@ -241,6 +241,11 @@ func c01Matrix() []c01cell {
 								if shape == "array-null-items" {
 									sc.Nullable = true
 									sc = &dialect.Schema{Type: "array", Items: sc}
+								}
+								if shape == "array-of-arrays" {
+									// (outside the dialect of section 3; the generator translates it when no client is asked for: each
+									// value becomes a one-element inner array)
+									sc = &dialect.Schema{Type: "array", Items: &dialect.Schema{Type: "array", Items: sc}}
 								}
 								sc.Nullable = nullable
 								if mode == "schemaref" {
@@ -693,7 +698,9 @@ func runC01(c runCfg) error {
 		return err
 	}
 	defer rmRoot(root)
+	scratch.Coverage = true
 	m, err := scratch.New(root, pkgs)
+	scratch.Coverage = false
 	if err != nil {
 		return err
 	}
@@ -753,7 +760,21 @@ func runC01(c runCfg) error {
 	for _, cl := range cells {
 		fam[cl.tags[0]]++
 	}
-	meta := map[string]interface{}{"cells": len(cells), "packages_generated": len(pkgs), "verdicts": counts, "cells_by_family": fam}
+	// which of the generator's named templates the corpus executed (TEMPLATE_DEBUG markers of a second generation pass)
+	tcov := map[string]int{}
+	for _, p := range pkgs {
+		for _, t := range p.Templates {
+			tcov[t]++
+		}
+	}
+	var never []string
+	for _, n := range templateNames() {
+		if tcov[n] == 0 {
+			never = append(never, n)
+		}
+	}
+	meta := map[string]interface{}{"cells": len(cells), "packages_generated": len(pkgs), "verdicts": counts, "cells_by_family": fam,
+		"templates_executed": tcov, "templates_never_executed_by_name": never}
 	return writeFam(c, &famResult{Cases: lines, Impl: impl, Pkgs: nil}, meta)
 }
 
